@@ -4,9 +4,12 @@ E1 search (the C01 producers, unified and side-by-side, line-buffer-size 32/0/1/
 reference model evaluated after every input line, using the H2 offsets (bytes handed to the writer
 before the next line is requested):
  (a) lines shown so far vs lines consumed: everything except the currently open run of consecutive
-     removed/added lines has been written; at most line-buffer-size+1 removed and +1 added lines
-     are held back (the bound is per buffer - the mechanism flushes when either buffer exceeds the
-     size; reading it as a total would alarm on the intended behaviour);
+     removed/added lines has been written; at most line-buffer-size+1 lines are held back. The mechanism
+     bounds each of the two buffers, not their sum: a breach of the per-buffer bound is class
+     lag-exceeds-buffer, a run within it whose total is above the stated bound is class
+     open-run-exceeds-buffer-in-total (a recorded finding, see known_findings.json); at a hunk header
+     nothing of the previous hunk may be pending; the lines of an open merge-conflict region are one
+     open run of added lines (StreamC, class conflict-region-held, a recorded finding);
  (b) the bytes written before line k+1 was requested are a prefix of the output of lines 1..k run
      alone (checked against the parent render) - output is never revised;
  (c) what has been written is empty or ends in a newline (else Rust's line-buffered stdout would
@@ -107,6 +110,12 @@ class Streaming(Problem):
             raise ViolationError("shown-more-than-read", "more lines shown (%d-,%d+,%d ) than "
                                  "read (%d-,%d+,%d )" % (sm, sp, sz, cm, cp, cz))
         pend_m, pend_p, pend_z = cm - sm, cp - sp, cz - sz
+        if k not in ("minus", "plus", "zero") and line.startswith(b"@@") and (pend_m or pend_p or pend_z):
+            # a hunk header: the input ends inside the hunk it opens, and the run of removed/added lines which ended
+            # the previous hunk is not the open run any more
+            raise ViolationError("closed-run-held-at-hunk-header", "held back at the next hunk header: %d removed / %d added / "
+                                 "%d unchanged lines of the previous hunk" % (pend_m, pend_p, pend_z),
+                                 observed=[pend_m, pend_p, pend_z])
         if k not in ("minus", "plus", "zero"):
             # the statement speaks about input that ends inside a hunk, i.e. whose last line is a
             # hunk line; after a header line delta may still hold the just-closed run (painted,
@@ -127,6 +136,12 @@ class Streaming(Problem):
         if pend_m > self.lbs + 1 or pend_p > self.lbs + 1:
             raise ViolationError(
                 "lag-exceeds-buffer", "held back: %d removed / %d added lines with "
+                "line-buffer-size %d" % (pend_m, pend_p, self.lbs),
+                expected=self.lbs + 1, observed=[pend_m, pend_p])
+        if pend_m + pend_p > self.lbs + 1:
+            # (each buffer is within the size, the open run as a whole is not)
+            raise ViolationError(
+                "open-run-exceeds-buffer-in-total", "held back: %d removed + %d added lines of one open run with "
                 "line-buffer-size %d" % (pend_m, pend_p, self.lbs),
                 expected=self.lbs + 1, observed=[pend_m, pend_p])
         return (cm, cp, cz, sm, sp, sz, rm, rp)
@@ -153,9 +168,15 @@ class StreamA(Streaming):
 
 
 class StreamB(Streaming):
+    def eof(self, model, out, ps):
+        n, cur, i, sub = ps
+        if cur is not None and cur[0].startswith("submodule"):
+            return      # (`hash..` of a lone `-Subproject commit` line is painted like a removed line: not a hunk row)
+        return Streaming.eof(self, model, out, ps)
+
     def line_kind(self, line, kind, ps):
         n, cur, i, sub = ps
-        if cur is not None and cur[0] != "submodule":
+        if cur is not None and not cur[0].startswith("submodule"):
             knd, body = cur
             lines, info = self.inner.sec(knd, n, body)
             nh = len(info["hunk_lines"])
@@ -163,6 +184,51 @@ class StreamB(Streaming):
                 k = producers.hunk_line_kind(line, 2 if knd == "combined" else 1)
                 return k if k in ("minus", "plus", "zero") else "other"
         return "other"
+
+
+class StreamC(Problem):
+    """wraps C01's conflict producer: the lines between `++<<<<<<<` and `++>>>>>>>` are added lines of the combined
+    diff - one open run - so at most line-buffer-size + 1 of them may be held back. model = (in region, region lines read,
+    hunk rows shown since the region began)"""
+    max_depth = 200
+
+    def __init__(self, inner, lbs, sbs):
+        self.inner = inner
+        self.lbs = lbs
+        self.sbs = sbs
+
+    def initial(self):
+        ps, _ = self.inner.initial()
+        return (ps, (False, 0, 0))
+
+    def successors(self, ps):
+        return self.inner.successors(ps)
+
+    def step(self, model, line, kind, out, ps):
+        inr, read, shown = model
+        if out and not out.endswith(b"\n"):
+            raise ViolationError("partial-line", "bytes handed to the writer do not end in a newline: %r" % out[-40:],
+                                 observed=out[-80:])
+        if kind == "mc-begin":
+            return (True, 0, 0)
+        if kind in ("mc-end", "mc-abort") or not inr:
+            return (False, 0, 0)
+        if kind == "mc-line":
+            read += 1
+        m, p, z, o = count_rows(out, self.sbs)
+        shown += m + p + z + o
+        held = read - shown
+        if held > self.lbs + 1:
+            raise ViolationError("conflict-region-held", "%d lines of an open merge conflict region are held back with "
+                                 "line-buffer-size %d (nothing of the region is written before its end marker)"
+                                 % (held, self.lbs), expected=self.lbs + 1, observed=held)
+        return (True, read, shown)
+
+    def eof(self, model, out, ps):
+        pass
+
+    def model_key(self, model):
+        return model
 
 
 def run_task(task):
@@ -182,7 +248,7 @@ def run_task(task):
     if spec[0] == "A":
         _, variant, contents, L, hunks = spec
         inner = c01.SearchA(ocfg, contents, L, hunks, variant)
-        prob = StreamA(inner, lbs, sbs)
+        prob = StreamC(inner, lbs, sbs) if variant == "conflict" else StreamA(inner, lbs, sbs)
     else:
         _, nsec, kinds, bodies, src = spec
         inner = c01.SearchB(ocfg, nsec, kinds, bodies, True, src)
@@ -322,20 +388,25 @@ def main(tier):
     t0 = time.time()
     build.ensure_built()
     tasks = []
+    # (a submodule's `-Subproject commit`/`+Subproject commit` pair is shown as one `hash..hash` line, not as hunk lines:
+    # the deleted / added / dirty submodule sections of C01 are not part of the streaming question)
+    KB = producers.SECTION_KINDS + ["commit"]
     if tier == "quick":
         specA = ("A", "unified", CONTENTS_QUICK[:3], 4, 1)
         specA2 = ("A", "unified", [b"x", b""], 3, 2)
-        specB = ("B", 2, None, None, "git")
+        specB = ("B", 2, KB, None, "git")
     else:
         specA = ("A", "unified", CONTENTS_QUICK, 5, 1)
         specA2 = ("A", "unified", CONTENTS_QUICK[:3], 4, 2)
-        specB = ("B", 3, None, ["ctx", "minus", "minusplus"], "git")
+        specB = ("B", 3, KB, ["ctx", "minus", "minusplus"], "git")
     for lbs in (32, 0, 1, 2):
         for sbs in (False, True):
             for spec in (specA, specA2, specB):
                 tasks.append((spec, "lbs=%d,%s" % (lbs, "sbs" if sbs else "unified"), {}, lbs, sbs))
             tasks.append((("A", "diffu", CONTENTS_QUICK[:3], 3, 1),
                           "lbs=%d,%s,diffu" % (lbs, "sbs" if sbs else "unified"), {}, lbs, sbs))
+            tasks.append((("A", "conflict", [b"x", b"y"], 2, 1),
+                          "lbs=%d,%s,conflict" % (lbs, "sbs" if sbs else "unified"), {}, lbs, sbs))
         tasks.append((specA, "lbs=%d,unified,line-numbers" % lbs, {"line-numbers": True}, lbs, False))
         tasks.append((specA, "lbs=%d,unified,max-line-distance=1" % lbs, {"max-line-distance": "1"},
                       lbs, False))
